@@ -1,11 +1,15 @@
 #!/bin/bash
 # runs the quick (or given tier) check of every claimed property; prints one summary line each
 tier=${1:-quick}; shift
-props=${@:-$(python3 -c "import json;print(' '.join(c['property_id'] for c in json.load(open('/verif/MANIFEST.json'))['checks']))")}
-cd /verif
+here=$(cd "$(dirname "$0")/.." && pwd)
+export VERIF_DIR=$here
+cd $here
+[ -x bin/gosym ] || (cd engine && GOFLAGS=-mod=mod GOPROXY=off GOSUMDB=off GOTOOLCHAIN=local go build -o ../bin/gosym .)
+props=${@:-$(python3 -c "import json;print(' '.join(c['property_id'] for c in json.load(open('$here/MANIFEST.json'))['checks']))")}
+mkdir -p out
 for p in $props; do
   s=$(date +%s)
-  timeout 3600 ./bin/gosym check $p --tier $tier > out/check-$p.log 2>&1; rc=$?
+  timeout 4000 ./bin/gosym check $p --tier $tier > out/check-$p.log 2>&1; rc=$?
   e=$(( $(date +%s) - s ))
   echo "$p rc=$rc ${e}s $(grep -c '^VIOLATION' out/check-$p.log) viol $(grep -c '^INCONCLUSIVE\|^ENGINE-MISMATCH' out/check-$p.log) inconcl | $(tail -1 out/check-$p.log | cut -c1-200)"
 done
